@@ -135,6 +135,9 @@ pub fn workload(ctx: &mut Ctx, args: &Args) {
     if want("cff") {
         cffgen::sec_cff(ctx, &mut items);
     }
+    if want("cffcap") {
+        cffgen::sec_cff_directed(ctx, &mut items);
+    }
     if want("ift") {
         ift::sec_ift(ctx, &mut items);
     }
@@ -151,6 +154,7 @@ pub fn workload(ctx: &mut Ctx, args: &Args) {
     ctx.extra.insert(
         "directed_generators".into(),
         json!({
+            "cffcap": "capacity boundaries of the fixed-size tables of the CFF/CFF2 hinter and charstring evaluator (hint-map edges 92..=100 with ghost stems in every declaration order, stem counts / mask lengths, operand stack 48 / 513, subroutine nesting 8..=12, CFF2 blend operand counts), every glyph unhinted + CFF-hinted at fixed sizes; see cffgen.rs",
             "iftd": format!("{} enumerated format-1 + {} enumerated format-2 mapping tables (+ budgeted random draws), each whole and, for the small ones, truncated at every field boundary; see iftgen.rs", iftgen::N_F1, iftgen::N_F2),
             "strings": format!("{} enumerated name / post tables (language tags of 0..=64 units x 8 kinds x 2 versions, records of every platform x encoding, offsets at the storage end, post names of 0..255 bytes) + budgeted random draws; see namegen.rs", namegen::N_ENUM),
             "memsweep": format!("every buffer length 0..=advertised+8 x every start alignment 0..7 for up to {} small glyphs per glyf font (3 smallest + 1 mid-sized of simple / composite), unhinted FreeType + HarfBuzz, interpreter- and auto-hinted, default and non-default location; pristine fonts, budgeted random mutants, generated composite graphs", drive::MEMSWEEP_SLOTS),
